@@ -391,6 +391,32 @@ func c16Loop(p *Prog, ls *Lockset, r *Report) {
 				tickDesc = fmt.Sprintf("SetData(%s, %s) on %s inside the loop: %v", fct, data, Path(setData.Call.Value), inLoop)
 			}
 			r.Check("R6", base+"|tick", okTick, p.Pos(fn.Pos()), tickDesc)
+			// every tick refreshes: between the select and SetData no condition other than the select's own case
+			// dispatch (a refresh skipped on some ticks stretches the period beyond the announced timeout)
+			if setData != nil && sel != nil {
+				var extra []string
+				for _, g := range Guards(liftInScope(setData).Block()) {
+					ci, isI := g.Cond.(ssa.Instruction)
+					if !isI || !sel.Block().Dominates(ci.Block()) {
+						continue // a condition in front of the loop
+					}
+					fromSelect := false
+					if bo, isB := g.Cond.(*ssa.BinOp); isB {
+						for _, side := range []ssa.Value{bo.X, bo.Y} {
+							if ex, isEx := side.(*ssa.Extract); isEx && ex.Tuple == ssa.Value(sel) {
+								fromSelect = true
+							}
+						}
+					}
+					if ex, isEx := g.Cond.(*ssa.Extract); isEx && ex.Tuple == ssa.Value(sel) {
+						fromSelect = true
+					}
+					if !fromSelect {
+						extra = append(extra, Path(g.Cond)+" at "+p.InstrPos(g.If))
+					}
+				}
+				r.Check("R6", base+"|every-tick", len(extra) == 0, p.InstrPos(setData), fmt.Sprintf("the refresh is reached on every tick; additional conditions: %v", extra))
+			}
 		})
 	}
 	r.Floor("R6", "refresh loops", nLoops, 1)
